@@ -504,3 +504,145 @@ func runWhipExpiry(c *Ctx, plan any) {
 	c.StateSig = uint64(len(w.handledL))<<8 ^ uint64(len(sessions))<<4 ^ uint64(len(deleted))
 	c.Sample("whip-expiry: clients=%d ops=%d whip_sessions=%d deleted=%d members_left=%d", p.Clients, len(p.Ops), len(sessions), len(deleted), members)
 }
+
+// ---------------------------------------------------------------------
+// C07, the end of a WHIP publisher's stream.
+//
+// Web subscribers that request everything; a WHIP session is created, its
+// tracks arrive (each arrival schedules the delayed announcement of the
+// stream, 200 ms later), and the session is deleted by its publisher some
+// 0..400 ms after that.  Oracle (C07.teardown-missed): once activity has
+// stopped, no subscriber holds a downstream (an offer it was sent that no
+// close followed) for a session that has been deleted.
+
+func genWhipStreamPlan(tp *simrt.Tape, seed uint64, tier string) any {
+	p := &confPlan{Profile: "whip-stream"}
+	g := confGroup{Name: "g1", Users: stdUsers(), Wildcard: &confUser{Role: "present"}}
+	p.Groups = []confGroup{g}
+	p.Clients = 1 + tp.Draw(2)
+	genConnectAll(tp, p)
+	users := stdUsers()
+	for i := 0; i < p.Clients; i++ {
+		u := users[tp.Draw(len(users))]
+		p.Ops = append(p.Ops, confOp{Kind: "join", C: i, Group: "g1", User: u.Name, Pass: u.Pass}, confOp{Kind: "request", C: i, N: tp.Weighted(4, 1)})
+	}
+	p.Ops = append(p.Ops, confOp{Kind: "settle"})
+	nsess := 1 + tp.Draw(2)
+	for s := 0; s < nsess; s++ {
+		p.Ops = append(p.Ops, confOp{Kind: "whip", Group: "g1", V: "whiptok"}, confOp{Kind: "settle"})
+		for k, nt := 0, 1+tp.Draw(2); k < nt; k++ {
+			p.Ops = append(p.Ops, confOp{Kind: "whiptrack", Sub: []string{"a", "v"}[k%2]})
+			if d := []int{0, 0, 20, 120, 190, 205, 260}[tp.Draw(7)]; d > 0 {
+				p.Ops = append(p.Ops, confOp{Kind: "sleep", N: d})
+			}
+		}
+		if tp.Chance(1, 3) {
+			p.Ops = append(p.Ops, confOp{Kind: "settle"})
+		}
+		p.Ops = append(p.Ops, confOp{Kind: "whipdel", N: s}, confOp{Kind: "settle"})
+	}
+	return p
+}
+
+func init() {
+	Register("C07", &Scenario{
+		Name:   "whip-stream",
+		Weight: 1,
+		Owns:   []string{"C07"},
+		New:    func() any { return &confPlan{} },
+		Gen:    genWhipStreamPlan,
+		Cfg: func(tp *simrt.Tape, plan any) simrt.Config {
+			c := swarmCfg(tp, false)
+			c.PCTPoints = 2000
+			return c
+		},
+		Run:    runWhipStream,
+		Shrink: shrinkConf,
+	})
+}
+
+func runWhipStream(c *Ctx, plan any) {
+	p := plan.(*confPlan)
+	w := newConfWorld(c)
+	w.vfs.Put("/sim/data/var/tokens.jsonl", []byte(`{"token":"whiptok","group":"g1","permissions":["present"],"expires":"2030-01-01T00:00:00Z"}
+`))
+	x := &confExec{w: w, p: p}
+	var sessions []whipSession
+	deleted := 0
+	x.onWhipResource = func(op *confOp, s whipSession, res httpResult) {
+		if op.Kind == "whipdel" && res.Status >= 200 && res.Status < 300 {
+			deleted++
+		}
+	}
+	ssrc := uint32(0)
+	x.extra = func(op *confOp) bool {
+		if op.Kind == "settle" {
+			// the RTCP senders of down connections tick for ever: wait for
+			// more than the 200 ms debounce of announcements instead of for
+			// quiescence
+			simrt.Sleep(450*time.Millisecond, "c07.whip.settle")
+			return true
+		}
+		if op.Kind == "whiptrack" {
+			// a track of the newest WHIP session arrives at the server
+			var info *simrt.PCInfo
+			for _, i := range c.Run.PCs() {
+				if i.OnTrack != nil && !i.Closed {
+					info = i
+				}
+			}
+			if info == nil || len(sessions) == 0 {
+				return true
+			}
+			codec := "vp8"
+			if op.Sub == "a" {
+				codec = "opus"
+			}
+			cp, kind := recCodecParams(codec)
+			ssrc++
+			tr := simrt.NewFakeTrackRemote(kind, 0x7000+ssrc, cp, fmt.Sprintf("wt%d", ssrc), "ms-whip", "")
+			c.Count("ops.whip_track", 1)
+			info.OnTrack(tr, simrt.NewFakeReceiver())
+			simrt.Reenter()
+			return true
+		}
+		return x.doExtra(op, &sessions)
+	}
+	x.run()
+	if c.Run.Failed() {
+		return
+	}
+	simrt.Sleep(time.Second, "c07.whip.settle")
+	for _, info := range c.Run.PCs() {
+		if !info.Closed {
+			info.PC.OnICEConnectionStateChange(nil)
+		}
+	}
+	c.Count("whip.sessions", int64(len(sessions)))
+	offered := 0
+	if deleted == len(sessions) {
+		for _, sc := range w.clients {
+			if !sc.alive() {
+				continue
+			}
+			open := map[string]int64{}
+			for _, rm := range sc.recv {
+				id, _ := rm.M["id"].(string)
+				switch rm.Type {
+				case "offer":
+					open[id] = rm.Stamp
+					offered++
+				case "close":
+					delete(open, id)
+				}
+			}
+			for _, id := range sortedKeys(open) {
+				c.Violation("C07.teardown-missed", "all %d WHIP sessions have been deleted by their publishers and activity has stopped, but client %s still holds the downstream %q it was offered at %d: the offer came after the close of the stream (or no close came), and nothing will ever close it", len(sessions), sc.id, id, open[id])
+				return
+			}
+		}
+	}
+	c.Nontrivial = len(sessions) > 0 && offered > 0
+	c.StateSig = uint64(len(w.handledL))<<8 ^ uint64(len(sessions))<<4 ^ uint64(offered)
+	c.Sample("whip-stream: clients=%d ops=%d whip_sessions=%d deleted=%d offers=%d", p.Clients, len(p.Ops), len(sessions), deleted, offered)
+}
